@@ -4,6 +4,8 @@ package main
 
 import (
 	"fmt"
+	"regexp"
+	"sort"
 	"strings"
 
 	"golang.org/x/tools/go/ssa"
@@ -86,14 +88,106 @@ func headerFields(fa *FuncAn, buf string) map[string]string {
 	return out
 }
 
+
+var encRe = regexp.MustCompile(`^(BE|LE)(\d+)\((.*)\)$`)
+var byteListRe = regexp.MustCompile(`^\[(\d+(, \d+)*)\]$`)
+
+// returnedBytes: the byte slice a function returns on its success exits (result index 0).
+func returnedBytes(fa *FuncAn) []ssa.Value {
+	var out []ssa.Value
+	seen := map[ssa.Value]bool{}
+	for _, x := range fa.Exits() {
+		rs := RetResults(x.Ret)
+		if len(rs) == 0 {
+			continue
+		}
+		if len(rs) >= 2 && rs[len(rs)-1].Type().String() == "error" {
+			if c, ok := rs[len(rs)-1].(*ssa.Const); !ok || c.Value != nil {
+				continue
+			}
+		}
+		if c, ok := rs[0].(*ssa.Const); ok && c.Value == nil {
+			continue
+		}
+		if !seen[rs[0]] {
+			seen[rs[0]] = true
+			out = append(out, rs[0])
+		}
+	}
+	return out
+}
+
+// writerFields reads "which field is written where" off the placements of an assembled buffer
+// (see concat.go), whatever mix of make/copy/append/element stores builds it. id and filler name
+// the constant runs the RFC fixes; any other non-zero constant in the buffer is reported as stray.
+func writerFields(fa *FuncAn, v ssa.Value, id []string) map[string]string {
+	ps, _ := fa.BufferPlaces(v)
+	out := map[string]string{}
+	consts := map[int64]string{}
+	for _, p := range ps {
+		what, enc := p.What, ""
+		if m := encRe.FindStringSubmatch(what); m != nil {
+			what, enc = m[3], " "+m[1]+m[2]
+		}
+		if len(p.o.Syms) == 0 {
+			if m := byteListRe.FindStringSubmatch(what); m != nil && enc == "" {
+				for i, e := range strings.Split(m[1], ", ") {
+					consts[p.o.K+int64(i)] = e
+				}
+				continue
+			}
+			if isConstTerm(what) && enc == "" && p.End == p.o.addK(1).String() {
+				consts[p.o.K] = what
+				continue
+			}
+		}
+		end := p.End
+		out["W:"+fieldName(what)] = p.Off + ":" + end + enc
+	}
+	run := func(from int64, want []string) bool {
+		for i, b := range want {
+			if consts[from+int64(i)] != b {
+				return false
+			}
+		}
+		return true
+	}
+	if len(id) > 0 && run(0, id) {
+		out["W:ID"] = fmt.Sprintf("0:%d", len(id))
+		for i := range id {
+			delete(consts, int64(i))
+		}
+	}
+	if run(3, []string{"255", "255", "255", "255", "255"}) {
+		out["W:Filler"] = "3:8"
+		for i := int64(3); i < 8; i++ {
+			delete(consts, i)
+		}
+	} else if consts[3] == "255" {
+		out["W:const 255"] = "3:4"
+		delete(consts, 3)
+	}
+	var stray []string
+	for o, b := range consts {
+		if b != "0" {
+			stray = append(stray, fmt.Sprintf("%s@%d", b, o))
+		}
+	}
+	sort.Strings(stray)
+	if len(stray) > 0 {
+		out["W:stray"] = strings.Join(stray, " ")
+	}
+	return out
+}
+
 func fieldName(v string) string {
 	v = strings.TrimSuffix(v, "[:]")
 	switch {
 	case strings.HasPrefix(v, "recv."):
 		return strings.TrimPrefix(v, "recv.")
-	case strings.HasPrefix(v, "gssapi.getGssWrapTokenId()"), strings.HasPrefix(v, "gssapi.getGSSMICTokenID()"):
-		return "ID"
-	case strings.HasPrefix(v, "gssapi.fillerBytes()"):
+	case v == "[5, 4]", v == "[4, 4]":
+		return "ID " + v
+	case v == "[255, 255, 255, 255, 255]":
 		return "Filler"
 	case strings.HasPrefix(v, "gssapi.(*MICToken).getMICChecksumHeader(recv)"):
 		return "Header"
@@ -111,7 +205,11 @@ func compareFields(c *Check, rule, fk, where string, got, want map[string]string
 			c.Fail(rule, fk, k, where, desc, fmt.Sprintf("no such header operation found; operations found: %v", got))
 			continue
 		}
-		c.Decide(g == want[k], rule, fk, k, where, desc, "the code uses "+g)
+		good := g == want[k]
+		if strings.HasSuffix(want[k], ":*") {
+			good = strings.HasPrefix(g, strings.TrimSuffix(want[k], "*"))
+		}
+		c.Decide(good, rule, fk, k, where, desc, "the code uses "+g)
 	}
 }
 
@@ -124,18 +222,24 @@ func runC17(w *World, c *Check) {
 	c.Rule("C17.consts", "key usages 22–25, flag bits 1/2/4, token ids; initiator tokens: usage 24/25, flags 0, EC = HMAC length", 12)
 
 	// ---- layout ---------------------------------------------------------------------------
-	wbuf := `make([]byte, ((16 + len(recv.Payload)) + recv.EC))`
+	// Writers are read through the placements of the buffer they return (concat.go): the same
+	// table holds for make+copy, append chains, literals and element stores. Constant byte strings
+	// are folded to literals whether they come from an accessor function, a read-only package
+	// array or a literal at the use site (constfold.go).
 	type lay struct {
-		fk, buf string
-		want    map[string]string
+		fk     string
+		writer bool
+		id     []string
+		want   map[string]string
 	}
+	wrapID, micID := []string{"5", "4"}, []string{"4", "4"}
 	for _, l := range []lay{
-		{"gssapi.(*WrapToken).Marshal", wbuf, map[string]string{"W:ID": "0:", "W:Flags": "2", "W:const 255": "3", "W:EC": "4:6 BE16", "W:RRC": "6:8 BE16", "W:SndSeqNum": "8:16 BE64", "W:Payload": "16:", "W:CheckSum": "(16 + len(recv.Payload)):"}},
-		{"gssapi.(*WrapToken).Unmarshal", "b", map[string]string{"R:ID": "0:2", "R:Flags": "2", "R:const 255": "3", "R:EC": "4:6 BE16", "R:RRC": "6:8 BE16", "R:SndSeqNum": "8:16 BE64"}},
-		{"gssapi.getChecksumHeader", `local<[16]byte>[:16]`, map[string]string{"W:senderSeqNum": "8: BE64"}},
-		{"gssapi.(*MICToken).getMICChecksumHeader", `local<[16]byte>[:16]`, map[string]string{"W:ID": "0:2", "W:Flags": "2", "W:Filler": "3:8", "W:SndSeqNum": "8:16 BE64"}},
-		{"gssapi.(*MICToken).Marshal", `make([]byte, (16 + len(recv.Checksum)))`, map[string]string{"W:Header": "0:16", "W:Checksum": "16:"}},
-		{"gssapi.(*MICToken).Unmarshal", "b", map[string]string{"R:ID": "0:2", "R:Flags": "2", "R:Filler": "3:8", "R:SndSeqNum": "8:16 BE64", "R:Checksum": "16:"}},
+		{"gssapi.(*WrapToken).Marshal", true, wrapID, map[string]string{"W:ID": "0:2", "W:Flags": "2:3", "W:const 255": "3:4", "W:EC": "4:6 BE16", "W:RRC": "6:8 BE16", "W:SndSeqNum": "8:16 BE64", "W:Payload": "16:16+len(recv.Payload)", "W:CheckSum": "16+len(recv.Payload):*"}},
+		{"gssapi.(*WrapToken).Unmarshal", false, wrapID, map[string]string{"R:ID": "0:2", "R:Flags": "2", "R:const 255": "3", "R:EC": "4:6 BE16", "R:RRC": "6:8 BE16", "R:SndSeqNum": "8:16 BE64"}},
+		{"gssapi.getChecksumHeader", true, wrapID, map[string]string{"W:senderSeqNum": "8:16 BE64"}},
+		{"gssapi.(*MICToken).getMICChecksumHeader", true, micID, map[string]string{"W:ID": "0:2", "W:Flags": "2:3", "W:Filler": "3:8", "W:SndSeqNum": "8:16 BE64"}},
+		{"gssapi.(*MICToken).Marshal", true, nil, map[string]string{"W:Header": "0:16", "W:Checksum": "16:*"}},
+		{"gssapi.(*MICToken).Unmarshal", false, micID, map[string]string{"R:ID": "0:2", "R:Flags": "2", "R:Filler": "3:8", "R:SndSeqNum": "8:16 BE64", "R:Checksum": "16:"}},
 	} {
 		fn := w.Func(l.fk)
 		if fn == nil {
@@ -143,7 +247,27 @@ func runC17(w *World, c *Check) {
 			continue
 		}
 		fa := NewFuncAn(w, fn)
-		compareFields(c, "C17.layout", l.fk, w.Pos(fn.Pos()), headerFields(fa, l.buf), l.want)
+		var got map[string]string
+		if l.writer {
+			got = map[string]string{}
+			for _, v := range returnedBytes(fa) {
+				for k, val := range writerFields(fa, v, l.id) {
+					if old, dup := got[k]; dup && old != val {
+						val = old + " | " + val
+					}
+					got[k] = val
+				}
+			}
+			stray, has := got["W:stray"]
+			c.Decide(!has, "C17.layout", l.fk, "W:no-stray-constant", w.Pos(fn.Pos()), "no constant other than the RFC's identifier and filler bytes is written into the token", "constant byte(s) "+stray)
+		} else {
+			got = headerFields(fa, "b")
+			idKey := "R:ID [" + strings.Join(l.id, ", ") + "]"
+			if v, ok := got[idKey]; ok {
+				got["R:ID"] = v
+			}
+		}
+		compareFields(c, "C17.layout", l.fk, w.Pos(fn.Pos()), got, l.want)
 	}
 	// Wrap payload / checksum positions on the reading side
 	if fn := w.Func("gssapi.(*WrapToken).Unmarshal"); fn != nil {
@@ -160,54 +284,27 @@ func runC17(w *World, c *Check) {
 	if fn := w.Func("gssapi.getChecksumHeader"); fn != nil {
 		fa := NewFuncAn(w, fn)
 		ok := false
-		for _, ci := range fa.Calls(`copy`) {
-			if s := fa.RenderCall(ci); s == substParams(fn, `copy(local<[16]byte>[:16][0:], [5, 4, flags, 255, 0, 0, 0, 0])`) {
-				ok = true
-			}
-		}
-		if !ok {
-			// the field-by-field form: token id at 0, flags at 2, 0xFF at 3, nothing at 4…7
-			hf := headerFields(fa, `local<[16]byte>[:16]`)
-			idOK, flOK, ffOK, clean := false, false, false, true
-			var seen []string
-			for k, v := range hf {
-				if !strings.HasPrefix(k, "W:") {
-					continue
+		detail := "no returned buffer"
+		for _, v := range returnedBytes(fa) {
+			hf := writerFields(fa, v, wrapID)
+			flagsAt := ""
+			clean := true
+			for k, val := range hf {
+				if strings.HasPrefix(val, "2:3") {
+					flagsAt = k
 				}
-				seen = append(seen, k+"@"+v)
-				switch {
-				case (v == "0:" || v == "0:2") && (strings.Contains(k, "TokenId") || strings.Contains(k, "ID")):
-					idOK = true
-				case v == "2" && strings.Contains(strings.ToLower(k), "flags"):
-					flOK = true
-				case v == "3" && (strings.Contains(k, "255") || strings.Contains(k, "FillerByte")):
-					ffOK = true
-				case strings.HasPrefix(v, "4") || strings.HasPrefix(v, "5") || strings.HasPrefix(v, "6") || strings.HasPrefix(v, "7"):
-					clean = false
+				for _, o := range []string{"4:", "5:", "6:", "7:"} {
+					if strings.HasPrefix(val, o) {
+						clean = false
+					}
 				}
 			}
-			ok = idOK && flOK && ffOK && clean
-			_ = seen
+			_, stray := hf["W:stray"]
+			ok = hf["W:ID"] == "0:2" && flagsAt == substParams(fn, "W:flags") && hf["W:const 255"] == "3:4" && clean && !stray
+			detail = fmt.Sprintf("header fields %v", hf)
 		}
-		c.Decide(ok, "C17.layout", FuncKey(fn), "W:prefix", w.Pos(fn.Pos()), "the checksummed Wrap header is 05 04 ‖ flags ‖ FF ‖ EC=0 ‖ RRC=0 (RFC 4121 §4.2.4)", "prefix is not [5, 4, flags, 255, 0, 0, 0, 0]")
+		c.Decide(ok, "C17.layout", FuncKey(fn), "W:prefix", w.Pos(fn.Pos()), "the checksummed Wrap header is 05 04 ‖ flags ‖ FF ‖ EC=0 ‖ RRC=0 (RFC 4121 §4.2.4)", detail)
 	}
-	for fk, want := range map[string]string{"gssapi.getGssWrapTokenId": "[5, 4]", "gssapi.getGSSMICTokenID": "[4, 4]", "gssapi.fillerBytes": "[255, 255, 255, 255, 255]"} {
-		fn := w.Func(fk)
-		if fn == nil {
-			c.Missing("C17.consts", fk)
-			continue
-		}
-		fa := NewFuncAn(w, fn)
-		var vals []string
-		for i := 0; i < 8; i++ {
-			for _, st := range fa.storesTo(fmt.Sprintf(`.*\[%d\]`, i)) {
-				vals = append(vals, fa.R.R(st.Val))
-			}
-		}
-		got := "[" + strings.Join(vals, ", ") + "]"
-		c.Decide(got == want, "C17.consts", fk, "value", w.Pos(fn.Pos()), fk+" is "+want, "is "+got)
-	}
-
 	// ---- checksum input ------------------------------------------------------------------------
 	for _, ck := range []struct{ fk, hdr string }{
 		{"gssapi.(*WrapToken).computeCheckSum", `gssapi\.getChecksumHeader\(recv\.Flags, recv\.SndSeqNum\)`},
@@ -257,7 +354,7 @@ func runC17(w *World, c *Check) {
 	rej := func(fk, id string, filler []GuardPat, extra []GuardSpec) {
 		specs := []GuardSpec{
 			{Name: "short-input", Desc: "fewer than 16 bytes ⇒ error", Main: []GuardPat{{Kind: "gt", X: "16", Y: `len\(b\)`, PassWhen: false}}},
-			{Name: "token-id", Desc: "token id mismatch ⇒ error", Main: []GuardPat{TruePass(`bytes\.Equal\(` + id + `\[:\], b\[0:2\]\)`), TruePass(`bytes\.Equal\(b\[0:2\], ` + id + `\[:\]\)`)}},
+			{Name: "token-id", Desc: "token id mismatch ⇒ error", Main: []GuardPat{TruePass(`bytes\.Equal\(` + id + `, b\[0:2\]\)`), TruePass(`bytes\.Equal\(b\[0:2\], ` + id + `\)`)}},
 			{Name: "filler", Desc: "filler mismatch ⇒ error", Main: filler},
 			{Name: "unexpected-acceptor-flag", Desc: "acceptor flag set but not expected ⇒ error",
 				Main:   []GuardPat{TruePass(`expectFromAcceptor`)},
@@ -268,10 +365,10 @@ func runC17(w *World, c *Check) {
 		}
 		checkGuards(w, c, "C17.reject", fk, BoolErrSuccess(-1, 0), append(specs, extra...))
 	}
-	rej("gssapi.(*WrapToken).Unmarshal", `gssapi\.getGssWrapTokenId\(\)`, []GuardPat{EqPass("255", `b\[3\]`)}, []GuardSpec{
+	rej("gssapi.(*WrapToken).Unmarshal", `\[5, 4\]`, []GuardPat{EqPass("255", `b\[3\]`)}, []GuardSpec{
 		{Name: "ec-sane", Desc: "EC larger than the bytes after the header ⇒ error", Main: []GuardPat{{Kind: "gt", X: `encoding/binary\.\(bigEndian\)\.Uint16\(encoding/binary\.BigEndian, b\[4:6\]\)`, Y: `\(len\(b\) - 16\)`, PassWhen: false}}},
 	})
-	rej("gssapi.(*MICToken).Unmarshal", `gssapi\.getGSSMICTokenID\(\)`, []GuardPat{TruePass(`bytes\.Equal\(b\[3:8\], gssapi\.fillerBytes\(\)\[:\]\)`), TruePass(`bytes\.Equal\(gssapi\.fillerBytes\(\)\[:\], b\[3:8\]\)`)}, nil)
+	rej("gssapi.(*MICToken).Unmarshal", `\[4, 4\]`, []GuardPat{TruePass(`bytes\.Equal\(b\[3:8\], \[255, 255, 255, 255, 255\]\)`), TruePass(`bytes\.Equal\(\[255, 255, 255, 255, 255\], b\[3:8\]\)`)}, nil)
 
 	// ---- constants -------------------------------------------------------------------------------------
 	for n, v := range map[string]int64{"GSSAPI_ACCEPTOR_SEAL": 22, "GSSAPI_ACCEPTOR_SIGN": 23, "GSSAPI_INITIATOR_SEAL": 24, "GSSAPI_INITIATOR_SIGN": 25} {
